@@ -216,3 +216,112 @@ def flag_sweep(prop, tier, seed, families=('fill', 'lattice', 'level0'), n_quick
             'evaluations': evals, 'distinct_nontrivial': nontriv, 'conversions': runs, 'exhaustive': False,
             'rule': f'{n} seeded decks per family {list(families)}; non-trivial when at least two option combinations '
                     'converted', 'failures': _pick(fails), 'wall_s': round(time.time() - t0, 1)}
+
+
+# ------------------------------------------------------------------ C14: MCNP-insignificant respellings of a deck
+
+def _tokens(t4):
+    """The written file as a list of tokens, comments and the command-line echo removed."""
+    out = []
+    for line in t4.split('\n'):
+        line = line.split('//')[0]
+        if 't4_geom_convert' in line:
+            continue
+        out += line.split()
+    return out
+
+
+def same_output(a, b):
+    """The two written files describe the same thing: same surfaces (numbers, types, parameters by value), same
+    volumes, same boundary entries, structurally valid alike, and every volume attached to a composition with the same
+    content (kind, density, nuclides and amounts by value).  Composition *names* are labels: they embed the spelling
+    of the density and are compared only through what they designate."""
+    from .t4file import T4File
+    fa, fb = T4File(a), T4File(b)
+    if fa.structural_errors() != fb.structural_errors():
+        return False, f'structural errors differ: {fa.structural_errors()[:2]} vs {fb.structural_errors()[:2]}'
+
+    def surf_view(f):
+        return {k: (v[0], [float(x) for x in v[1]], None if v[2] is None else repr(v[2])) for k, v in f.surfaces.items()}
+    if surf_view(fa) != surf_view(fb):
+        ka, kb = surf_view(fa), surf_view(fb)
+        bad = [k for k in set(ka) | set(kb) if ka.get(k) != kb.get(k)][:3]
+        return False, f'surfaces differ: {[(k, ka.get(k), kb.get(k)) for k in bad]}'
+
+    def vol_view(f):
+        return {k: (sorted(v['plus']), sorted(v['minus']), v['op'], list(v['args']), v['fictive']) for k, v in f.volumes.items()}
+    if vol_view(fa) != vol_view(fb):
+        return False, 'volumes differ'
+    if sorted(fa.boundary) != sorted(fb.boundary):
+        return False, f'boundary conditions differ: {fa.boundary} vs {fb.boundary}'
+
+    def comp_of(f):
+        comps = {c['name']: (c['kind'], c.get('density'), c.get('flag'), [(n, float(x)) for n, x in c['entries']])
+                 for c in f.compositions}
+        out = {}
+        for name, ids in f.geomcomp:
+            for i in ids:
+                out[i] = comps.get(name, ('undefined composition', name))
+        return out
+    ca, cb = comp_of(fa), comp_of(fb)
+    if ca != cb:
+        bad = [k for k in set(ca) | set(cb) if ca.get(k) != cb.get(k)][:2]
+        return False, f'composition of volume(s) differ: {[(k, ca.get(k), cb.get(k)) for k in bad]}'
+    return True, ''
+
+
+def _respell_one(fam, seed, tier):
+    import random
+    from . import run, respell
+    deck, opts = FAMILIES[fam](seed)
+    text = deck.text(random.Random(f'fmt{seed}'))
+    lattice = opts.get('lattice', ())
+    t0, so0, e0 = run.convert(text, lattice=lattice)
+    fails = []
+    n = 0
+    kinds_list = [(k,) for k in respell.KINDS] + [respell.KINDS] * (2 if tier == 'quick' else 6)
+    for j, kinds in enumerate(kinds_list):
+        rng = random.Random(f'{fam}/{seed}/{j}')
+        text2 = respell.respell(text, rng, kinds)
+        t1, so1, e1 = run.convert(text2, lattice=lattice)
+        n += 1
+        tag = kinds[0] if len(kinds) == 1 else 'all-kinds'
+        if (e0 is None) != (e1 is None) or (e0 is not None and type(e0) is not type(e1)):
+            fails.append({'property': 'C14', 'label': f'respelling-changes-the-outcome:{tag}',
+                          'detail': f'original: {e0!r:.150}; respelled: {e1!r:.150}', 'deck': text2, 'original_deck': text,
+                          'lattice': list(lattice), 'family': fam, 'seed': seed})
+            continue
+        if t0 is None or t1 is None:
+            continue
+        ok, why = same_output(t0, t1)
+        if not ok:
+            fails.append({'property': 'C14', 'label': f'respelling-changes-the-output:{tag}', 'detail': why, 'deck': text2,
+                          'original_deck': text, 'lattice': list(lattice), 'family': fam, 'seed': seed})
+    return {'fails': fails, 'stats': {'runs': n, 'converted': t0 is not None}, 'nontrivial': t0 is not None}
+
+
+def respell_sweep(prop, tier, seed, families=('level0', 'fill', 'lattice', 'hexlattice'), n_quick=10, n_thorough=120):
+    n = n_quick if tier == 'quick' else n_thorough
+    units = [((fam, seed * 100003 + i), (fam, seed * 100003 + i, tier)) for fam in families for i in range(n)]
+    from .decks import N_DIRECTED
+    units += [(('directed', i), ('directed', i, tier)) for i in range(N_DIRECTED)]
+    t0 = time.time()
+    res = run_units(units, _respell_one, unit_timeout=600)
+    fails, errors, evals, nontriv, runs = [], [], 0, 0, 0
+    for key, (kind, r) in res.items():
+        if kind != 'ok':
+            errors.append({'label': 'harness-error', 'case': f'{key[0]}/{key[1]}', 'detail': (r or kind)[-600:]})
+            continue
+        evals += 1
+        runs += r['stats']['runs']
+        nontriv += 1 if r['nontrivial'] else 0
+        for f in r['fails']:
+            f['case'] = f'{key[0]}/{key[1]}'
+            fails.append(f)
+    return {'name': f'respelling-sweep[{"+".join(families)}+directed]', 'kind': 'bounded (each generated deck converted '
+            'as written and in MCNP-equivalent respellings; written files compared token by token, numbers by value)',
+            'evaluations': evals, 'distinct_nontrivial': nontriv, 'conversions': runs, 'exhaustive': False,
+            'rule': f'{n} seeded decks per family {list(families)} + the directed decks; one respelling per kind '
+                    '(case, blanks, tabs, continuation, comments, message block, Fortran numbers, nR shorthand) and '
+                    'several with all kinds together; non-trivial when the original deck converts',
+            'failures': _pick(fails), 'harness_errors': errors[:3], 'wall_s': round(time.time() - t0, 1)}
